@@ -190,6 +190,7 @@ def explore(E, con, fi, res, body_runner=None):
             bound = symbolic_params(ctx, con, fi)
             if con.setup is not None:
                 con.setup(ctx, I, bound)
+                ctx.own_stores = []      # the sidecar's construction of the entry state is not a write of the code under verification
             old_heap = ctx.snapshot()
             pre = Spec(ctx, old_heap, old_heap)
             _attach_trace(pre, ctx, ctx.trlen)
@@ -522,7 +523,7 @@ def differential(E, con, fi, max_paths=64):
                     pending.extend(ctx.alternatives)
                     continue
                 m = s.model()
-                heap0 = dict(ctx.heap0)
+                heap0 = dict(old_heap) if con.setup is not None else dict(ctx.heap0)   # a sidecar-constructed entry state is the entry state
                 for k in ctx.heap:
                     heap0.setdefault(k, ctx.heap0.get(k))
                 try:
@@ -589,7 +590,7 @@ def _compare(E, ctx, I, m, conc, out, kind, value, tr_old, con):
             if nm != type(out["exception"]).__name__:
                 return "exception class: symbolic %s, CPython %s" % (nm, type(out["exception"]).__name__)
     for oid, o in conc.objs.items():
-        ty = conc.types[oid]
+        ty = conc.types.get(oid)
         if not isinstance(ty, (TObj, TAbs)) or getattr(ty, "observe", None) is not None:
             continue  # ghost fields of real library objects are only meaningful where the library defines them
         for f, fty in ty.fields.items():
